@@ -445,9 +445,14 @@ NewViewConsistent == (Done /\ ~IsShort(m)) =>
 CStarts == IF Len(m) <= 12 THEN <<>>
            ELSE IF sel[1] = "Ldone" THEN sel[2]
            ELSE [i \in 1..Min(Len(m) - 12, 10) |-> 11 + i]
-\* every start is also the start of a byte string of its own (the rest of the
-\* message) for the routes that read without a message around them
-CProbes == [i \in 1..Len(CStarts) |-> <<CStarts[i], Len(m)>>]
+\* the rest of the message from a start, as a byte string of its own, for
+\* the routes that read without a message around them: from every start of
+\* the families that name their starts, else from the first start (the
+\* question) and the eighth (where the record after the question "a." begins)
+CProbes ==
+  LET n == Len(CStarts)
+      idx == IF n <= 3 THEN [i \in 1..n |-> i] ELSE IF n >= 8 THEN <<1, 8>> ELSE <<1>>
+  IN [i \in 1..Len(idx) |-> <<CStarts[idx[i]], Len(m)>>]
 EmitCodec == (Done /\ Len(m) >= 12) =>
   PrintT("CASE " \o ToJson(CodecCase(m, CStarts, CProbes)))
 =============================================================================
